@@ -28,6 +28,9 @@ pub enum PortEnv {
     Silent,
     /// the device disappears when it receives the first request
     HangUp,
+    /// the device disappears while the port is open and nothing is going on (the harness pulls
+    /// it right after the Open notification was released): the channel must notice by itself
+    HangUpIdle,
 }
 
 #[derive(Copy, Clone, Debug, PartialEq, Eq, Hash, Serialize, Deserialize)]
@@ -52,7 +55,7 @@ pub struct C13sCase {
 pub fn arb_c13s() -> BoxedStrategy<C13sCase> {
     let act = prop_oneof![4 => Just(SAct::Enable), 3 => Just(SAct::Disable), 4 => Just(SAct::Submit)];
     let gate = prop_oneof![6 => Just(Vec::new()), 5 => act.clone().prop_map(|a| vec![a]), 1 => vec(act, 2..3)];
-    let env = prop_oneof![3 => Just(PortEnv::Missing), 3 => Just(PortEnv::Served), 1 => Just(PortEnv::Silent), 2 => Just(PortEnv::HangUp)];
+    let env = prop_oneof![3 => Just(PortEnv::Missing), 3 => Just(PortEnv::Served), 1 => Just(PortEnv::Silent), 2 => Just(PortEnv::HangUp), 2 => Just(PortEnv::HangUpIdle)];
     (
         // one script in ten with a retry delay of zero: the wait state is announced and left at once
         prop_oneof![9 => 20u16..35, 1 => Just(0u16)],
@@ -112,6 +115,8 @@ fn name(s: &PortState) -> &'static str {
 /// a device on the master side of a pty
 struct Device {
     stop: Arc<std::sync::atomic::AtomicBool>,
+    /// tells the device thread to close its side now
+    pull: Arc<std::sync::atomic::AtomicBool>,
 }
 
 impl Drop for Device {
@@ -123,6 +128,8 @@ impl Drop for Device {
 fn start_device(mut pty: Pty, env: PortEnv) -> Device {
     let stop = Arc::new(std::sync::atomic::AtomicBool::new(false));
     let s2 = stop.clone();
+    let pull = Arc::new(std::sync::atomic::AtomicBool::new(false));
+    let p2 = pull.clone();
     std::thread::spawn(move || {
         let t0 = Instant::now();
         let mut acc: Vec<u8> = Vec::new();
@@ -130,6 +137,10 @@ fn start_device(mut pty: Pty, env: PortEnv) -> Device {
         loop {
             if s2.load(std::sync::atomic::Ordering::SeqCst) {
                 return; // dropping the pty hangs up
+            }
+            if p2.load(std::sync::atomic::Ordering::SeqCst) {
+                pty.close_master();
+                return;
             }
             let b = pty.read_n(1, Duration::from_millis(5));
             if !b.is_empty() {
@@ -159,7 +170,7 @@ fn start_device(mut pty: Pty, env: PortEnv) -> Device {
             }
         }
     });
-    Device { stop }
+    Device { stop, pull }
 }
 
 pub fn check_c13s(case: &C13sCase) -> CaseResult {
@@ -215,6 +226,9 @@ fn run_once(case: &C13sCase, slow: u32, delays: bool) -> CaseResult {
         let mut seen_shutdown = false;
         let mut ended_from: Option<&'static str> = None;
         let mut delays_checked = 0u32;
+        // the device was pulled while the port was open and idle, at this instant
+        let mut pulled_idle: Option<Instant> = None;
+        let mut idle_losses = 0u32;
         let started = Instant::now();
 
         // prepare the environment of the next open attempt
@@ -380,6 +394,9 @@ fn run_once(case: &C13sCase, slow: u32, delays: bool) -> CaseResult {
                             }
                         }
                     }
+                    if pulled_idle.take().is_some() && n == "Wait" {
+                        idle_losses += 1;
+                    }
                     states.push(state);
                     // the next open attempt follows a Disabled (after enable) or a Wait gate
                     if n == "Disabled" || n == "Wait" {
@@ -399,6 +416,7 @@ fn run_once(case: &C13sCase, slow: u32, delays: bool) -> CaseResult {
                         }
                     };
                     gate_idx += 1;
+                    let subs_at_this_gate = subs.len();
                     for a in acts {
                         do_act!(a, Some(n));
                     }
@@ -406,12 +424,29 @@ fn run_once(case: &C13sCase, slow: u32, delays: bool) -> CaseResult {
                         wait_released = Some((d, Instant::now()));
                     }
                     let _ = release.send(());
+                    if n == "Open" && next_env == Some(PortEnv::HangUpIdle) && !end_requested && settings.last() != Some(&false) && subs_at_this_gate == subs.len() {
+                        if let Some(d) = device.as_ref() {
+                            d.pull.store(true, std::sync::atomic::Ordering::SeqCst);
+                            pulled_idle = Some(Instant::now());
+                        }
+                    }
                     if seen_shutdown {
                         break;
                     }
                 }
                 Ok(None) => break,
                 Err(_) => {
+                    // the device went away while the port was open and idle: a wait state must
+                    // have been announced by now
+                    if let Some(t) = pulled_idle {
+                        if !end_requested && states.last().map(|s| name(s)) == Some("Open") {
+                            return Err(format!(
+                                "the device was pulled {:?} ago while the port was open and no request was outstanding, but the listener has not been told of a wait state (states {:?})",
+                                t.elapsed(),
+                                states.iter().map(name).collect::<Vec<_>>()
+                            ));
+                        }
+                    }
                     // nothing has happened for a while: if the last thing the task was told is
                     // "disable", it must have said Disabled by now
                     if !end_requested && settings.last() == Some(&false) {
@@ -484,6 +519,9 @@ fn run_once(case: &C13sCase, slow: u32, delays: bool) -> CaseResult {
         }
         if delays_checked >= 2 {
             ok.label("delays>=2");
+        }
+        if idle_losses > 0 {
+            ok.label("port_lost_while_idle");
         }
         if let Some(f) = ended_from {
             ok.label(match f {
